@@ -20,7 +20,7 @@ DTS = [0, 0.25, 1, 59.5, 60, 299, 300, 301, 359, 360, 361, 659, 660, 661, 900]
 
 KINDS = ["flow_step", "flow_new", "conn", "claim", "open", "add", "close", "release", "alloc", "list",
          "drop", "reconn", "adv", "restart", "ping", "rawconn", "claim_open",
-         "bad", "resend", "longadv", "faultadv"]
+         "bad", "resend", "longadv", "faultadv", "fill"]
 
 
 class Profile(object):
@@ -56,7 +56,7 @@ class Profile(object):
 
 BASE_W = dict(flow_step=24, flow_new=4, conn=2, claim=3, open=3, add=4, close=3, release=2, alloc=1, list=1,
               drop=2, reconn=3, adv=3, restart=1, ping=0, rawconn=0, claim_open=1,
-              bad=0, resend=0, longadv=0, faultadv=0)
+              bad=0, resend=0, longadv=0, faultadv=0, fill=0)
 
 
 def W(**kw):
@@ -80,6 +80,7 @@ PROFILES = {
     "blurry": Profile("blurry", W(adv=4, longadv=2, close=6, release=5, claim=5, claim_open=3, conn=4), napps=2, nsides=3, nnames=2, nmail=2),
     "restarts": Profile("restarts", W(restart=4, adv=5, longadv=1, reconn=4), napps=2, nsides=3, nnames=2, nmail=2, rephase=True),
     "dups": Profile("dups", W(resend=8, adv=3, restart=1, close=4, release=3), napps=1, nsides=3, nnames=2, nmail=2, dup=True),
+    "alloc": Profile("alloc", W(fill=10, alloc=14, release=6, claim=4, close=3, flow_step=8, flow_new=2, longadv=1, adv=2, conn=6), napps=2, nsides=3, nnames=5, nmail=2),
     "twoapps": Profile("twoapps", W(close=5, release=4, adv=3, longadv=1, restart=1), napps=2, nsides=2, nnames=2, nmail=2),
 }
 
@@ -406,6 +407,9 @@ class Driver(object):
         if kind == "longadv":
             self.do({"op": "advance", "dt": 660.0 + 300.0 * (a % 3) + b})
             return
+        if kind == "fill":
+            self.fill(a, b, c, m)
+            return
         if kind == "faultadv":
             # the first database access of the next sweep fails transiently
             self.do({"op": "advance", "dt": 300.0 + (a % 2) * 300.0 + b, "fault": [0]})
@@ -515,6 +519,37 @@ class Driver(object):
                 self.do({"op": "send", "c": cid, "msg": {"type": "ping", "ping": 0}})
         elif kind == "bad":
             self.bad(cs, a, b, c, t1, t2)
+
+    LOOKALIKES = ["007", "\u0661", " 1", "1 ", "01", "x-ray", "1.0", "+1", "\uff11", "0"]
+
+    def fill(self, a, b, c, m):
+        """C04: build an in-use set through ordinary claims (compressed)."""
+        app = self.app_of(c)
+        v = a % 8
+        holes = set()
+        if v in (0, 1):
+            names = ["%d" % i for i in range(1, 10) if (m >> i) & 1]          # random subset of 1-9
+        elif v == 2:
+            holes = {1 + b % 9} if c % 2 else {1 + b % 9, 1 + (b + 1 + c) % 9}
+            names = ["%d" % i for i in range(1, 10) if i not in holes]
+        elif v in (3, 4):
+            holes = {10 + (m % 90)} | ({10 + ((m >> 7) % 90)} if c % 2 else set())
+            if b % 4 == 0:
+                holes = set()
+            names = ["%d" % i for i in range(1, 100) if i not in holes]
+        elif v == 5 and not self.did_big_fill:
+            self.did_big_fill = True
+            holes = {100 + (m % 900)} if b % 3 else set()
+            if b % 3 == 2:
+                holes |= {1 + c % 9}
+            names = ["%d" % i for i in range(1, 1000) if i not in holes]
+        else:
+            names = [self.LOOKALIKES[(b + i) % len(self.LOOKALIKES)] for i in range(1 + c % 4)]
+        if names:
+            self.do({"op": "fill", "app": app, "names": names, "side": "filler"})
+            self.count("fills")
+
+    did_big_fill = False
 
     def dup_command(self, cs, b, c):
         """C14: issue a claim/release/open/close that is valid in this
